@@ -27,6 +27,11 @@
 //	              NewSubConn (gsb.mu not held), child j reports state s; the swap this may
 //	              cause, including the asynchronous Close of the old wrapper, completes
 //	              (synctest.Wait) before the channel's NewSubConn returns
+//	[13, id, j, s] (id != j) child id reports READY and, while the channel's UpdateState that forwards
+//	              it is still running (the state counts as seen by the channel when that call
+//	              completes), child j reports state s from a second goroutine.  The forward is held
+//	              only until the second goroutine has finished or is parked (bounded yields: it
+//	              parks on gsb.mu).  Recorded as the two reports [2,id,2] [2,j,s], one chunk each.
 //
 // obs: one word per event, every op ends with [0]
 //
@@ -53,6 +58,7 @@ import (
 	"runtime"
 	"sort"
 	"sync"
+	"sync/atomic"
 	"testing"
 	"testing/synctest"
 
@@ -73,6 +79,8 @@ type vGSwitchEnv struct {
 	gsb      *gracefulswitch.Balancer
 	tags     map[string]bool
 	during   func() // scripted re-entrant action, run once inside the channel's NewSubConn
+	slowID   int64  // >= 0: the next UpdateState(READY, picker slowID) is slow (op 13), one-shot
+	slowHook func(inSwap bool)
 }
 
 var vGSwitchCur *vGSwitchEnv
@@ -145,8 +153,8 @@ func (s *vGSwitchSC) Shutdown() {
 	s.e.mu.Unlock()
 	s.e.ev(14, s.id)
 }
-func (s *vGSwitchSC) Connect()                                  {}
-func (s *vGSwitchSC) UpdateAddresses([]resolver.Address)        {}
+func (s *vGSwitchSC) Connect()                                           {}
+func (s *vGSwitchSC) UpdateAddresses([]resolver.Address)                 {}
 func (s *vGSwitchSC) RegisterHealthListener(func(balancer.SubConnState)) {}
 func (s *vGSwitchSC) GetOrBuildProducer(balancer.ProducerBuilder) (balancer.Producer, func()) {
 	return nil, func() {}
@@ -172,6 +180,12 @@ func (c *vGSwitchCC) UpdateState(s balancer.State) {
 	id := int64(-1)
 	if p, ok := s.Picker.(*vGSwitchPicker); ok {
 		id = p.id
+	}
+	if h := c.e.slowHook; h != nil && id >= 0 && id == c.e.slowID && s.ConnectivityState == connectivity.Ready {
+		c.e.slowHook = nil
+		buf := make([]byte, 8192)
+		n := runtime.Stack(buf, false)
+		h(bytes.Contains(buf[:n], []byte("gracefulswitch.(*Balancer).swap(")))
 	}
 	c.e.ev(1, int64(s.ConnectivityState), id)
 }
@@ -374,6 +388,14 @@ func vGSwitchExecIn(cfg []int64, ops [][]int64) (obs [][]int64, nontrivial bool,
 				e.ev(11, ok, sc)
 			}
 		}
+		if len(op) == 4 && op[0] == 13 {
+			if c, j, st := child(op[1]), child(op[2]), op[3]; op[1] != op[2] && st >= 0 && st <= 3 {
+				obs = append(obs, vGSwitchRace(e, c, j, st)...)
+			} else {
+				obs = append(obs, e.flush()...)
+			}
+			continue
+		}
 		evs := e.flush()
 		// tags: which swap rule fired
 		for i, w := range evs {
@@ -408,6 +430,70 @@ func vGSwitchExecIn(cfg []int64, ops [][]int64) (obs [][]int64, nontrivial bool,
 	sort.Strings(tags)
 	nontrivial = e.tags["swap_by_pending"] || e.tags["swap_by_current"]
 	return obs, nontrivial, tags
+}
+
+// op 13: two chunks, [2,id,2] then [2,j,s]
+func vGSwitchRace(e *vGSwitchEnv, c, j *vGSwitchChild, st int64) [][]int64 {
+	fired, inSwapFirst := false, false
+	boundary := -1
+	var g2done chan struct{}
+	var finished atomic.Bool
+	if c != nil {
+		e.slowID = c.id
+		e.slowHook = func(inSwap bool) {
+			fired, inSwapFirst = true, inSwap
+			g2done = make(chan struct{})
+			go func() {
+				defer close(g2done)
+				if j != nil {
+					j.update(st)
+				}
+				finished.Store(true)
+			}()
+			// hold the forward until the second report is through or parked (on gsb.mu)
+			for i := 0; i < 3000 && !finished.Load(); i++ {
+				runtime.Gosched()
+			}
+			if finished.Load() && j != nil {
+				e.tags["race_overtaken"] = true
+			}
+			e.mu.Lock()
+			boundary = len(e.main) + 1 // right after the event of this forward
+			e.mu.Unlock()
+		}
+		c.update(2)
+		e.slowHook = nil
+	}
+	if fired {
+		<-g2done
+		e.tags["race_forward"] = true
+	} else {
+		e.mu.Lock()
+		boundary = len(e.main)
+		e.mu.Unlock()
+		if j != nil {
+			j.update(st)
+		}
+	}
+	synctest.Wait()
+	e.mu.Lock()
+	defer e.mu.Unlock()
+	if boundary > len(e.main) {
+		boundary = len(e.main)
+	}
+	p1 := append([][]int64{}, e.main[:boundary]...)
+	p2 := append([][]int64{}, e.main[boundary:]...)
+	as := vGSwitchSortRuns(e.async)
+	if inSwapFirst {
+		p1 = append(p1, as...)
+	} else {
+		p2 = append(p2, as...)
+	}
+	out := append(vGSwitchSortRuns(p1), []int64{0})
+	out = append(out, vGSwitchSortRuns(p2)...)
+	out = append(out, []int64{0})
+	e.main, e.async = nil, nil
+	return out
 }
 
 var vGSwitchT *testing.T
@@ -451,6 +537,12 @@ func vGSwitchGen(r *vRand, tier string, idx int) ([]int64, [][]int64) {
 		return []int64{-1, 0, -1, 0, -1, 0}, [][]int64{{1, 0}, {2, 0, 2}, {3, 0}, {1, 1}, {12, 0, 1, 2}, {4, 1, 4},
 			{3, 1}, {1, 2}, {12, 1, 1, 3}, {12, 2, 2, 1}, {12, 2, 0, 2}, {12, 0, 2, 2}, {1, 0}, {12, 3, 2, 2}, {12, 2, 3, 1}, {5}, {12, 3, 2, 2}}
 	}
+	if idx == 2 {
+		// a report of the old policy whose forward is still in the channel while the pending policy
+		// reports READY / TF from another goroutine; also with the roles exchanged and a dead policy
+		return []int64{-1, 0, -1, 0, -1, 0}, [][]int64{{1, 0}, {2, 0, 2}, {3, 0}, {1, 1}, {13, 0, 1, 2}, {1, 2}, {13, 2, 1, 3},
+			{1, 0}, {13, 1, 3, 3}, {13, 3, 0, 2}, {13, 0, 3, 1}, {1, 1}, {2, 3, 2}, {13, 3, 4, 1}, {13, 3, 4, 2}, {13, 9, 4, 2}, {13, 4, 4, 2}}
+	}
 	if idx == 0 {
 		// the two swap rules, scripted
 		return cfg, [][]int64{{1, 0}, {2, 0, 2}, {3, 0}, {1, 1}, {3, 1}, {2, 1, 1}, {2, 0, 2}, {2, 1, 2},
@@ -481,9 +573,11 @@ func vGSwitchGen(r *vRand, tier string, idx int) ([]int64, [][]int64) {
 		case k < 58:
 			ops = append(ops, []int64{3, anych()})
 			nsc++
-		case k < 62:
+		case k < 61:
 			ops = append(ops, []int64{12, anych(), anych(), r.PickI64(0, 1, 2, 2, 3, 3)})
 			nsc++
+		case k < 62 || (k < 66 && idx%2 == 0):
+			ops = append(ops, []int64{13, anych(), anych(), r.PickI64(0, 1, 2, 2, 2, 3, 3)})
 		case k < 72:
 			ops = append(ops, []int64{4, anysc(), int64(r.Intn(5))})
 		case k < 74:
